@@ -268,4 +268,63 @@ func jobC04(c *rt.Ctx) {
 			checkModes(c, "C04d uniqueness", t, vs, shapes, nil)
 		}
 	}
+	// (e) uniqueness against PAIRS: two entries with other scalar halves S1 + d and S2 - d (both below L,
+	// each rejected alone) in one batch - at every pair of positions of batches of 4..9 and at the last
+	// two / first two / first-and-last positions of each chunk of 64..133 - are both rejected (their
+	// errors cancel in the batch equation exactly when the two entries got the same randomiser)
+	c.Require("e/compensating-pairs")
+	shift := func(t triple, d *big.Int) triple {
+		S := ref.LE(t.sig[32:])
+		S.Add(S, d)
+		S.Mod(S, ref.L)
+		return triple{t.key, t.msg, append(append([]byte{}, t.sig[:32]...), ref.ToLE(S, 32)...)}
+	}
+	for _, n := range []int{4, 5, 6, 7, 8, 9, 64, 65, 68, 69, 70, 133} {
+		var pairs [][2]int
+		if n <= 9 {
+			for i := 0; i < n; i++ {
+				for j := i + 1; j < n; j++ {
+					pairs = append(pairs, [2]int{i, j})
+				}
+			}
+		} else {
+			last := ((n - 1) / 64) * 64
+			if n-last < 4 {
+				last -= 64
+			}
+			for _, pr := range [][2]int{{0, 1}, {62, 63}, {0, 63}, {n - 2, n - 1}, {last, n - 1}, {last, last + 1}} {
+				if pr[0] >= 0 && pr[1] < n && pr[0] < pr[1] {
+					pairs = append(pairs, pr)
+				}
+			}
+		}
+		for pi, pr := range pairs {
+			for di, d := range []*big.Int{big.NewInt(1), new(big.Int).Lsh(big.NewInt(1), 128), new(big.Int).Rsh(ref.L, 1)} {
+				if !c.Take() {
+					continue
+				}
+				vs := vAll[(pi+di+n)%3]
+				zip := (pi+di)%2 == 1
+				c.Class("e/compensating-pairs")
+				c.Distinct(fmt.Sprintf("e %d %d %d", n, pi, di), true)
+				es := append([]triple{}, fillers(vs, n)...)
+				es[pr[0]] = shift(es[pr[0]], d)
+				es[pr[1]] = shift(es[pr[1]], new(big.Int).Neg(d))
+				e0, _ := modelVerify(es[pr[0]], vs, zip)
+				e1, _ := modelVerify(es[pr[1]], vs, zip)
+				all, valid, err, pv := implBatch(es, vs, zip, rt.NewRng(c.Seed, fmt.Sprintf("c04e-%d-%d", n, pi)))
+				c.Step(1)
+				bad := pv != nil || err != nil || len(valid) != n || all || e0 || e1
+				if !bad {
+					for i, v := range valid {
+						bad = bad || v != (i != pr[0] && i != pr[1])
+					}
+				}
+				if bad {
+					c.Violation("C04e compensating pair", fmt.Sprintf("batch of %d (%s, zip215=%v) with scalar halves S+d at %d and S-d at %d: valid=%v all=%v err=%v panic=%v (model: both rejected: %v)", n, vs, zip, pr[0], pr[1], valid, all, err, pv, !e0 && !e1),
+						map[string]interface{}{"n": n, "positions": fmt.Sprint(pr), "d": d.String(), "variant": vs.String(), "zip215": zip})
+				}
+			}
+		}
+	}
 }
